@@ -14,6 +14,10 @@
 //     side (Check/C17Check.v) replays the same history in the Gallina model.
 //     A case may apply its first one or two operations between the initial
 //     Source.Value() and Watch() (changes racing with start-up).
+//   - mode "w" (window): like "q", but operations flagged H hold the loop
+//     between Source.Value and the rest of the pass (verif after-Value hook)
+//     while the next operation is applied - the interleavings of the split-pass
+//     model, made deterministic; the property's oracle at every idle point.
 //   - mode "r" (racing exploration): the same histories applied with pauses
 //     from {0, 50us, 2ms} and no waiting; afterwards only the property's own
 //     oracle is evaluated (converged to decode(final content), or last good
@@ -61,10 +65,11 @@ type op struct {
 	C int    `json:"c"`           // content id; -1 = identical to the current content
 	V int    `json:"v,omitempty"` // variant bits: 1 = keep the old directory / delete only the target; 2 = leave the old target alone
 	P int    `json:"p,omitempty"` // pause before the operation (racing mode): 0, 1 = 50us, 2 = 2ms
+	H bool   `json:"h,omitempty"` // window mode: hold the loop between Value() and the rest of the pass this operation causes, apply the next operation meanwhile
 }
 
 type input struct {
-	Mode    string `json:"mode"`    // q | r
+	Mode    string `json:"mode"`    // q | r | w
 	Layout  int    `json:"layout"`  // 0 regular file, 1 k8s with ..data, 2 k8s with ..dir, 3 symlink into another directory
 	Backend string `json:"backend"` // args | dials
 	Early   int    `json:"early,omitempty"` // args backend: number of leading ops applied between the initial Value() and Watch()
@@ -139,6 +144,62 @@ func init() {
 		}
 		h.mu.Unlock()
 	})
+}
+
+// ---------------------------------------------------------------- holding the loop inside a pass
+
+type holder struct {
+	mu      sync.Mutex
+	armed   bool
+	held    chan struct{}
+	release chan struct{}
+}
+
+var holders sync.Map // *file.WatchingSource -> *holder
+
+func init() {
+	file.VerifSetAfterValueHook(func(ws *file.WatchingSource) {
+		v, ok := holders.Load(ws)
+		if !ok {
+			return
+		}
+		h := v.(*holder)
+		h.mu.Lock()
+		if !h.armed {
+			h.mu.Unlock()
+			return
+		}
+		h.armed = false
+		held, release := h.held, h.release
+		h.mu.Unlock()
+		close(held)
+		<-release
+	})
+}
+
+// arm makes the next pass of the loop stop right after Source.Value.
+func (h *holder) arm() {
+	h.mu.Lock()
+	h.armed, h.held, h.release = true, make(chan struct{}), make(chan struct{})
+	h.mu.Unlock()
+}
+
+// waitHeld reports whether the loop is now held; if no pass came it disarms.
+func (h *holder) waitHeld(d time.Duration) bool {
+	select {
+	case <-h.held:
+		return true
+	case <-time.After(d):
+	}
+	h.mu.Lock()
+	if h.armed {
+		h.armed = false
+		h.mu.Unlock()
+		return false
+	}
+	h.mu.Unlock()
+	<-h.held
+	return true
 }
 
 // ---------------------------------------------------------------- recording WatchArgs
@@ -559,6 +620,7 @@ type runner struct {
 	derrs  int
 	direct []string
 	r0     string // resolved config path when Watch() was called
+	hold   *holder
 }
 
 func early(in input) int {
@@ -603,6 +665,8 @@ func setup(in input) *runner {
 	r.ws = ws
 	r.hs = &hookState{seen: map[string]chan struct{}{}}
 	hooks.Store(ws, r.hs)
+	r.hold = &holder{}
+	holders.Store(ws, r.hold)
 	ctx, cancel := context.WithCancel(context.Background())
 	r.cancel = cancel
 	if in.Backend == "dials" {
@@ -734,6 +798,7 @@ func (r *runner) teardown() (released bool, why string) {
 		released, why = false, "watchLoop did not return within 20s after cancel"
 	}
 	hooks.Delete(r.ws)
+	holders.Delete(r.ws)
 	if released {
 		// the reader goroutine of fsnotify exits asynchronously after Close
 		deadline := time.Now().Add(10 * time.Second)
@@ -1010,13 +1075,88 @@ func runRacing(in input) driver.Result {
 	return res
 }
 
+// runWindow explores the window inside a pass deterministically: an operation
+// flagged H makes the loop read; the loop is then held between Source.Value and
+// the rest of the pass while the next operation is applied, and released.  At
+// every idle point the property's own oracle is evaluated (in Coq).
+func runWindow(in input) driver.Result {
+	in.Backend = "args"
+	r := setup(in)
+	w := r.w
+	res := driver.Result{Kind: fmt.Sprintf("window-layout%d", in.Layout)}
+	fail := func(format string, a ...interface{}) {
+		res.Direct = append(res.Direct, fmt.Sprintf(format, a...))
+	}
+	var points []string
+	kinds := map[string]bool{}
+	heldN := 0
+	point := func() bool {
+		if !r.settle() {
+			fail("watch loop unresponsive (sentinel event never received)")
+			return false
+		}
+		kind, cid, _ := w.truth()
+		if kind == 2 {
+			cid = firstInvalid
+		}
+		ob := r.args.snapshot()
+		points = append(points, fmt.Sprintf("(%s, %s, %s)", coqRead(kind, cid), optN(ob.last), coqfmt.Bool(ob.lastErr)))
+		return true
+	}
+	do := func(o op) bool {
+		if o.K == "rmparent" {
+			return true
+		}
+		w.apply(o, func() {})
+		kinds[o.K] = true
+		res.Tags = append(res.Tags, "w-op-"+o.K)
+		if o.K == "reload" && !r.sendReload() {
+			fail("watch loop did not take an explicit reload within 15s")
+			return false
+		}
+		return true
+	}
+	ok := point()
+	ops := in.Ops[early(in):]
+	for i := 0; ok && i < len(ops); i++ {
+		if ops[i].H && i+1 < len(ops) && ops[i+1].K != "reload" {
+			r.hold.arm()
+			ok = do(ops[i])
+			if ok && r.hold.waitHeld(300*time.Millisecond) {
+				heldN++
+				res.Tags = append(res.Tags, "w-held-"+ops[i].K+"-then-"+ops[i+1].K)
+				ok = do(ops[i+1])
+				close(r.hold.release)
+				i++
+			}
+		} else {
+			ok = do(ops[i])
+		}
+		ok = ok && point()
+	}
+	ob := r.args.snapshot()
+	if ob.dup {
+		fail("a new version was reported for content identical to the previous version")
+	}
+	released, why := r.teardown()
+	if !released {
+		fail("%s", why)
+	}
+	res.Coq = fmt.Sprintf("Window %s %s %s", coqfmt.List(points), coqfmt.Bool(ob.dup), coqfmt.Bool(released && ok))
+	res.Nontrivial = heldN >= 1 && len(kinds) >= 2
+	return res
+}
+
 func run(raw json.RawMessage) driver.Result {
 	var in input
 	if err := json.Unmarshal(raw, &in); err != nil {
 		panic(err)
 	}
-	if in.Mode == "q" {
+	switch in.Mode {
+	case "q":
 		return runQuiescent(in)
+	case "w":
+		return runWindow(in)
 	}
 	return runRacing(in)
 }
@@ -1075,6 +1215,15 @@ func gen(r *coqfmt.Rng, n int, tier string) []json.RawMessage {
 	}
 	for i := 0; i < n; i++ {
 		in := input{Layout: r.Intn(4), Ops: genOps(r, maxOps)}
+		if i%4 == 3 {
+			in.Mode, in.Backend = "w", "args"
+			for j := range in.Ops {
+				in.Ops[j].H = r.Chance(1, 2)
+			}
+			b, _ := json.Marshal(in)
+			out = append(out, b)
+			continue
+		}
 		if i%2 == 0 {
 			in.Mode, in.Backend = "q", "args"
 			if r.Chance(1, 4) {
@@ -1146,6 +1295,10 @@ func corpus() []json.RawMessage {
 	add(input{Mode: "r", Backend: "args", Layout: 0, Poll: true, Ops: []op{{K: "rmparent", C: 1}, {K: "rewrite", C: 2, P: 2}, {K: "rmparent", C: 3, P: 1}}})
 	add(input{Mode: "r", Backend: "dials", Layout: 3, Poll: true, Ops: []op{{K: "rewrite", C: 1}, {K: "rmparent", C: 2}, {K: "rename", C: 101, P: 2}}})
 	add(input{Mode: "r", Backend: "args", Layout: 1, Ops: []op{{K: "rmparent", C: 1}, {K: "rewrite", C: 2, P: 2}, {K: "reload", P: 2}}})
+	// inside a pass: switch, then (loop held after its read) rewrite the new target / delete it and re-create it
+	add(input{Mode: "w", Backend: "args", Layout: 0, Ops: []op{{K: "link", C: 1, H: true}, {K: "rewrite", C: 2}, {K: "rewrite", C: 3}}})
+	add(input{Mode: "w", Backend: "args", Layout: 0, Ops: []op{{K: "link", C: 1, H: true}, {K: "delete", V: 1}, {K: "trunc", C: 2}, {K: "rewrite", C: 3}}})
+	add(input{Mode: "w", Backend: "args", Layout: 1, Ops: []op{{K: "k8s", C: 1, V: 2, H: true}, {K: "delete", V: 1}, {K: "trunc", C: 2}, {K: "k8s", C: 3, H: true}, {K: "rewrite", C: 4}}})
 	// a change between the initial Value() and Watch()
 	add(input{Mode: "q", Backend: "args", Layout: 0, Early: 1, Ops: []op{{K: "rename", C: 3}, {K: "rewrite", C: 4}}})
 	add(input{Mode: "q", Backend: "args", Layout: 3, Early: 2, Ops: []op{{K: "rewrite", C: 3}, {K: "k8s", C: 4}, {K: "rename", C: 5}}})
@@ -1204,8 +1357,8 @@ func main() {
 		Prop: "C17", CoqImport: "Dials.Check.C17Check", CoqRun: "run_cases",
 		Rule: "histories of 1..12 (thorough 24) operations over {in-place rewrite, truncate+write, atomic rename-over, kubernetes ..data/..dir swap (old directory removed or kept), " +
 			"symlink into another directory, delete (path or target only), directory in place of the file, explicit reload} x content {fresh valid, identical bytes, earlier valid, malformed} " +
-			"on 4 initial layouts; even cases quiescent-step (compared with the model), odd cases racing with pauses {0,50us,2ms}, a fifth of them with the parent directory " +
-			"removed and re-created (poll mode or a final explicit reload), some in poll mode; " +
+			"on 4 initial layouts; half of the cases quiescent-step (compared with the model), a quarter window mode (the loop held inside a pass while the next operation is applied), a quarter racing with pauses {0,50us,2ms}, a fifth of them with the parent directory " +
+			"removed and re-created (poll mode or a final explicit reload), some in poll mode; window cases are non-trivial with >=1 hold that took effect and >=2 operation kinds; " +
 			"non-trivial: >=3 distinct operation kinds and >=2 changes of the file's content; distinct = distinct JSON inputs",
 		Gen: gen, Run: run, Corpus: corpus(),
 	})
